@@ -296,13 +296,13 @@ pub fn run(g: &mut Global) {
         },
         &check,
     );
-    g.random("random", g.tier.pick(150000, 3000000), &|| strategy(1, 300), &check);
+    g.random("random", g.tier.pick(400000, 3000000), &|| strategy(1, 300), &check);
     // the same relations after reset() on the same instance(s): resets at multiples of the period, next to them,
     // anywhere, and a second reset before the window refilled
-    g.random("resets", g.tier.pick(30000, 300000), &reset_strategy, &check_resets);
+    g.random("resets", g.tier.pick(100000, 300000), &reset_strategy, &check_resets);
     // identity events (tele.rs): at one or two steps the instance is replaced by its clone, by a used instance
     // (same or longer periods) that clone_from()s it, or by its serde round trip; nothing may change
-    g.random("events", g.tier.pick(20000, 300000), &|| crate::tele::wrap(strategy(1, 300)), &|t: &crate::tele::TCase<Case>, ctx: &mut Ctx| crate::tele::check_wrapped(t, ctx, if t.case.scalar { t.case.xs.len() } else { t.case.bars.len() }, t.case.cfg.n(), check));
+    g.random("events", g.tier.pick(80000, 300000), &|| crate::tele::wrap(strategy(1, 300)), &|t: &crate::tele::TCase<Case>, ctx: &mut Ctx| crate::tele::check_wrapped(t, ctx, if t.case.scalar { t.case.xs.len() } else { t.case.bars.len() }, t.case.cfg.n(), check));
     if g.tier == Tier::Thorough {
         g.random("long", 800, &|| strategy(3000, 8000), &check);
     }
